@@ -204,8 +204,12 @@ class Hexital:
         self._indicators.pop(name, None)
 
     def append(self, candles: Candle | List[Candle] | dict | List[dict] | list | List[list]):
-        for candle_manager in self._candles.values():
-            candle_manager.append(candles)
+        # Timeframe managers work on deep copies, the default manager on the given Candle
+        # objects themselves (converting / merging them in place): copy before that happens
+        for name, candle_manager in self._candles.items():
+            if name != DEFAULT_CANDLES:
+                candle_manager.append(candles)
+        self._candles[DEFAULT_CANDLES].append(candles)
 
         self.calculate()
 
